@@ -72,21 +72,114 @@ def run(points):
     return None
 
 
+# ---------------------------------------------------------------------------- the assembled result (contracts/c04_result.py)
+def run_result(points, maximize, use_std):
+    """OptimizationResult.from_optimization_problem against `history.optimum` and the database: same point, same flag / constraint values,
+    objective with the sign restored exactly for a maximisation problem reporting its original objective, index = position in the database."""
+    from gemseo.algos.optimization_result import OptimizationResult
+
+    p = _problem(points)
+    if maximize:
+        p.minimize_objective = False  # the objective becomes "-f"; recorded values are those of the standardized objective
+        p.database.clear()
+        for x, outs in points:
+            p.database.store(np.array([float(x)]), {("-f" if k == "f" else k): np.array([float(v)]) for k, v in outs.items()})
+    p.use_standardized_objective = use_std
+    p.preprocess_functions()  # as every driver does before a run (problem.objective.n_calls is an attribute of the preprocessed function)
+    sol = p.history.optimum
+    res = OptimizationResult.from_optimization_problem(p, message="m", status=3, optimizer_name="o")
+    xs = [float(x) for x, _ in points]
+    if res.x_opt is None or float(res.x_opt[0]) not in xs:
+        return {"what": "reported x_opt is not a recorded point", "reported": repr(res.x_opt)}
+    if not np.array_equal(res.x_opt, sol.design) or res.is_feasible != sol.is_feasible:
+        return {"what": "x_opt / is_feasible differ from history.optimum"}
+    if res.optimum_index != xs.index(float(res.x_opt[0])):
+        return {"what": "optimum_index is not the position of x_opt in the database", "reported": res.optimum_index}
+    o = dict(points)[int(res.x_opt[0])]
+    flip = maximize and not use_std
+    if "f" in o:
+        recorded = o["f"]  # value stored under the standardized objective name
+        expected = -recorded if flip else recorded
+        if res.f_opt is None or float(np.ravel(res.f_opt)[0]) != expected:
+            return {"what": "f_opt is not the recorded objective (sign restored for maximisation)", "reported": repr(res.f_opt), "expected": expected}
+        if res.objective_name != ("f" if flip else p.objective.name):
+            return {"what": "objective_name", "reported": res.objective_name}
+    elif res.f_opt is not None:
+        return {"what": "an objective is reported for a point without recorded objective", "reported": repr(res.f_opt)}
+    for c in ("g", "h"):
+        got = res.constraint_values[c]
+        if (c in o) != (got is not None) or (c in o and float(np.ravel(got)[0]) != o[c]):
+            return {"what": f"reported constraint {c} is not the recorded one"}
+    if not np.array_equal(res.x_0, np.array([float(points[0][0])])) or (res.message, res.status, res.optimizer_name) != ("m", 3, "o"):
+        return {"what": "x_0 / message / status / optimizer_name"}
+    last = p.history.last_point
+    if float(last.design[0]) != xs[-1] or last.is_feasible != ("g" in points[-1][1] and "h" in points[-1][1] and points[-1][1]["g"] <= p.tolerances.inequality
+                                                                 and abs(points[-1][1]["h"]) <= p.tolerances.equality):
+        return {"what": "last_point is not the last recorded point with its feasibility"}
+    return None
+
+
+PARETO_ROWS = [(0.0, 1.0), (1.0, 0.0), (1.0, 1.0), (0.0, 1.0), (2.0, -1.0)]
+
+
+def pareto_scenarios(max_points=3):
+    for n in range(1, max_points + 1):
+        for combo in itertools.product(range(len(PARETO_ROWS)), repeat=n):
+            for feas in itertools.product((0.0, 1.0), repeat=n):
+                yield [list(PARETO_ROWS[c]) for c in combo], list(feas)
+
+
+def run_pareto(rows, feas):
+    """No reported sample is infeasible or dominated by a feasible sample (<= everywhere, < somewhere)."""
+    from gemseo.algos.pareto.utils import compute_pareto_optimal_points
+
+    a, f = np.array(rows), np.array(feas)
+    mask = compute_pareto_optimal_points(a, f)
+    for p in range(len(rows)):
+        if not mask[p]:
+            continue
+        if not f[p]:
+            return {"what": "an infeasible sample is reported", "sample": p}
+        for q in range(len(rows)):
+            if q != p and f[q] and all(a[q] <= a[p]) and any(a[q] < a[p]):
+                return {"what": "a reported sample is dominated by a feasible one", "sample": p, "by": q}
+    return None
+
+
+def _guard(fn, *a):
+    try:
+        return fn(*a)
+    except Exception as e:  # noqa: BLE001
+        return {"exception": repr(e)}
+
+
 def replay(ob, seed=0):
-    for idx, pts in enumerate(scenarios()):
-        try:
-            r = run(pts)
-        except Exception as e:  # noqa: BLE001
-            r = {"exception": repr(e)}
+    name = getattr(ob, "name", "") or ""
+    if "pareto" not in name and "optimization_result" not in name and "last_point" not in name and "get_iteration" not in name and "get_x_vect" not in name:
+        for idx, pts in enumerate(scenarios()):
+            r = _guard(run, pts)
+            if r is not None:
+                return {"scenario": "database-vs-brute-force-optimum", "index": idx, "points": [[x, o] for x, o in pts], "failure": r}
+    if "pareto" not in name:
+        for idx, pts in enumerate(scenarios()):
+            for maximize, use_std in ((False, True), (True, True), (True, False), (False, False)):
+                r = _guard(run_result, pts, maximize, use_std)
+                if r is not None:
+                    return {"scenario": "result-vs-database", "index": idx, "points": [[x, o] for x, o in pts], "maximize": maximize, "use_standardized_objective": use_std,
+                            "failure": r}
+    for idx, (rows, feas) in enumerate(pareto_scenarios()):
+        r = _guard(run_pareto, rows, feas)
         if r is not None:
-            return {"scenario": "database-vs-brute-force-optimum", "index": idx, "points": [[x, o] for x, o in pts], "failure": r}
+            return {"scenario": "pareto-filter", "index": idx, "rows": rows, "feasible": feas, "failure": r}
     return None
 
 
 def rerun(w):
-    pts = [(x, o) for x, o in w["points"]]
-    try:
-        r = run(pts)
-    except Exception as e:  # noqa: BLE001
-        r = {"exception": repr(e)}
+    kind = w.get("scenario", "database-vs-brute-force-optimum")
+    if kind == "pareto-filter":
+        r = _guard(run_pareto, w["rows"], w["feasible"])
+    elif kind == "result-vs-database":
+        r = _guard(run_result, [(x, o) for x, o in w["points"]], w["maximize"], w["use_standardized_objective"])
+    else:
+        r = _guard(run, [(x, o) for x, o in w["points"]])
     return {"fails": r is not None, "failure": r}
